@@ -82,9 +82,28 @@ def check_purity(rep, fl, rule="R18.2"):
 def check_conflict_plumbing(rep, fl, rule="R18.3"):
     """Every cache-level operation passes index and conflict of the same build_key call."""
     facts = fl.facts
+    # who may call the two half-hashes: only KeyBuilder impls (build_key's default body).  A cache
+    # operation that hashes the halves itself disagrees with every other operation as soon as a
+    # builder overrides build_key (the trait documents build_key as the override point).
+    halves = []
+    for b in facts.bodies:
+        if (b.raw.get("impl_trait") or "").endswith("KeyBuilder") or strip_generics(b.raw["root"]).startswith("KeyBuilder::"):
+            continue
+        if not user_code(b):
+            continue
+        for bi, t in b.calls():
+            c = b.callee_of(t)
+            if callee_matches(c, "KeyBuilder::hash_index") or callee_matches(c, "KeyBuilder::hash_conflict"):
+                halves.append("%s calls %s" % (b.spath, short(c)))
+    rep.check(not halves, rule, fl, "KeyBuilder::hash_index / hash_conflict", "who may call", "only KeyBuilder implementations call hash_index / hash_conflict; every cache operation obtains its pair from build_key",
+              "a key's (index, conflict) pair is derived in two ways (a builder overriding build_key maps the key differently here): %s" % halves)
     for op, callee in (("get", SM + "::get"), ("get_mut", SM + "::get_mut"), ("try_remove", SM + "::try_remove"), ("get_ttl", SM + "::get")):
         b = fl.cache_fn(op)
-        (bkb, bkt), bke, index, conflict = props_cache.build_key_of(b)
+        try:
+            (bkb, bkt), bke, index, conflict = props_cache.build_key_of(b)
+        except AnchorMissing as e:
+            rep.check(False, rule, fl, b, "(index, conflict) of one build_key", "", "%s does not derive its pair from exactly one build_key(key) call (%s)" % (op, e))
+            continue
         cs = calls_to(b, callee)
         ok = len(cs) == 1
         if ok:
@@ -187,8 +206,11 @@ def check_C02(rep, fl):
 
 def check_C04(rep, fl):
     props_store.check_removal_inventory(rep, fl)
-    # R04.2: with room nothing is evicted or rejected
+    # R04.2: with room nothing is evicted or rejected -- and "room" is computed from `used`, which
+    # therefore has to equal the real combined cost after every mutation (R01.2): a `used` that
+    # drifts upwards makes a cache that is below capacity evict or refuse
     props_policy.check_C07_fastpath(rep, fl)
+    props_policy.check_balance(rep, fl, props_policy.slfu_writers(fl.facts))
     # R04.3: sweeper removes only due, non-zero, elapsed entries; try_update moves exactly one key
     props_store.check_sweeper(rep, fl)
     props_store.check_em_update(rep, fl)
@@ -198,3 +220,5 @@ def check_C04(rep, fl):
     props_store.check_store_writes(rep, fl)
     props_cache.check_dropsets(rep, fl)
     props_life.check_handle_item_pairing(rep, fl, collisions=False)
+    # R04.5: an insert accepted after clear() has returned is not discarded by that clear's drain
+    props_life.check_clear(rep, fl)
